@@ -421,6 +421,14 @@ def explore_c06(rng, tier, res, deep=False):
 
                 q = f"$.rows[?{side('a', a)} {op} {side('b', b)}]"
                 cases.append((q, doc))
+    # objects of equal size whose member NAMES differ, null members against missing ones, at the top and nested
+    obj_pairs = [({"a": None}, {"b": None}), ({"a": 1}, {"b": 1}), ({"a": None, "b": 1}, {"a": None, "c": 1}), ({"a": None}, {}), ({}, {"a": None}),
+                 ({"a": None, "b": 2}, {"b": 2, "c": None}), ({"x": {"a": None}}, {"x": {"b": None}}), ([{"a": None}], [{"b": None}]),
+                 ({"a": 0}, {"a": False}), ({"a": [None]}, {"a": []}), ({"a": None, "b": None}, {"a": None, "c": None}), ({"": None}, {"a": None})]
+    for a, b in obj_pairs:
+        for op in OPS:
+            for l, r in (("@.a", "@.b"), ("@.b", "@.a"), ("value(@.a)", "@.b"), ("$.x", "@.b")):
+                cases.append((f"$.rows[?{l} {op} {r}]", {"rows": [{"a": gen._copy(a), "b": gen._copy(b)}], "x": gen._copy(a)}))
     # Nothing against every value of the pool (empty containers and falsy scalars above all), every way of producing
     # Nothing (an empty singular query from @ or $, value() of an empty or multi-node nodelist, a function passing it
     # on), both sides, every operator
